@@ -162,7 +162,7 @@ std::string groupedInt32negToString( int32_t value, char group_char)
 {
 
    // convert into a positive value
-   const uint32_t  abs_value = -value;
+   const uint32_t  abs_value = -static_cast< uint32_t>( value);
 
    // actually we create a string with result_len + 1
    // but then we would have to sub 1 again two times (so 1 add, 2 subs), so
@@ -225,7 +225,7 @@ int groupedInt32negToString( char* buffer, int32_t value, char group_char)
 {
 
    // convert into a positive value
-   const uint32_t  abs_value = -value;
+   const uint32_t  abs_value = -static_cast< uint32_t>( value);
 
    // actually we create a string with result_len + 1
    // but then we would have to sub 1 again two times (so 1 add, 2 subs), so
